@@ -31,8 +31,9 @@ macro_rules! chk {
 }
 
 fn gen_seq(rng: &mut StdRng, bits: u32) -> Vec<u128> {
-    let shapes = [1usize, 2, 3, 5, 17, 255, 256, 257, 511, 513, 1025, 2049, 4097, 9000, 20000];
-    let n = if rng.gen_bool(0.5) { rng.gen_range(1..40) } else { shapes[rng.gen_range(0..shapes.len())] + rng.gen_range(0..3) };
+    let shapes = [2usize, 3, 5, 17, 64, 128, 256, 512, 1024, 1536, 2048, 4096, 6144, 8192, 9000, 20000];
+    // lengths just below, at and just above the block / superblock / sampling boundaries
+    let n = if rng.gen_bool(0.5) { rng.gen_range(1..40) } else { shapes[rng.gen_range(0..shapes.len())] + rng.gen_range(0..4) - 1 };
     let kind = rng.gen_range(0..6);
     let maxbits = rng.gen_range(1..=bits);
     let top: u128 = if maxbits >= 128 { u128::MAX } else { (1u128 << maxbits) - 1 };
@@ -116,9 +117,26 @@ macro_rules! tree_test {
                 chk!($label, inp.clone(), format!("iter().nth({}) / count / last / len / nth_back", k), (t.iter().nth(k), t.iter().count(), t.iter().last(), t.iter().len(), t.iter().nth_back(k)), (s.get(k).copied(), n, s.last().copied(), n, if k < n { Some(s[n - 1 - k]) } else { None }));
                 chk!($label, inp.clone(), "iter(): next, nth(usize::MAX), next".to_string(), { let mut it = t.iter(); let a = it.next(); let b = it.nth(usize::MAX); let c = it.next(); (a, b, c) }, (s.first().copied(), None, None));
                 chk!($label, inp.clone(), "iter().rev().collect()".to_string(), t.iter().rev().collect::<Vec<_>>(), s.iter().rev().copied().collect::<Vec<_>>());
+                // owned and by-reference IntoIterator, and a random interleaving of next / next_back with len() at every step
+                chk!($label, inp.clone(), "clone().into_iter(): collect / len / last".to_string(), (t.clone().into_iter().collect::<Vec<_>>() == s, t.clone().into_iter().len(), t.clone().into_iter().next_back()), (true, n, s.last().copied()));
+                chk!($label, inp.clone(), "(&t).into_iter(): collect / len".to_string(), ((&t).into_iter().collect::<Vec<_>>() == s, (&t).into_iter().len()), (true, n));
+                let plan: Vec<bool> = (0..n + 2).map(|_| rng.gen_bool(0.5)).collect();
+                chk!($label, inp.clone(), format!("iter(): interleaved next/next_back {:?}...", &plan[..plan.len().min(12)]), walk_both_ends(t.iter(), &s, &plan), None);
+                chk!($label, inp.clone(), format!("clone().into_iter(): interleaved next/next_back {:?}...", &plan[..plan.len().min(12)]), walk_both_ends(t.clone().into_iter(), &s, &plan), None);
             }
         }
     };
+}
+/// drives an iterator from both ends following `plan` (true = next, false = next_back); first disagreement with the sequence
+fn walk_both_ends<E: PartialEq + Copy + std::fmt::Debug, I: DoubleEndedIterator<Item = E> + ExactSizeIterator>(mut it: I, s: &[E], plan: &[bool]) -> Option<String> {
+    let (mut lo, mut hi) = (0usize, s.len());
+    for (step, &front) in plan.iter().enumerate() {
+        if it.len() != hi - lo { return Some(format!("step {}: len() = {} but {} elements are left", step, it.len(), hi - lo)); }
+        let got = if front { it.next() } else { it.next_back() };
+        let exp = if lo < hi { if front { lo += 1; Some(s[lo - 1]) } else { hi -= 1; Some(s[hi]) } } else { None };
+        if got != exp { return Some(format!("step {} ({}): {:?} instead of {:?}", step, if front { "next" } else { "next_back" }, got, exp)); }
+    }
+    None
 }
 trait HasPrefetch<E> { fn rp(&self, c: E, i: usize) -> Option<usize>; }
 macro_rules! impl_pf { ($ty:ty, $e:ty) => { impl HasPrefetch<$e> for $ty { fn rp(&self, c: $e, i: usize) -> Option<usize> { self.rank_prefetch(c, i) } } } }
@@ -499,6 +517,34 @@ fn darray_test(rng: &mut StdRng) {
              (0, 0, 0, None, None, None, None, 0, None, None, None, true));
         let e: DArray<true> = Vec::<usize>::new().into_iter().collect();
         chk!("DArray", "collect of no positions".to_string(), "select/len".to_string(), (e.len(), e.select1(0), e.select0(0)), (0, None, None));
+    }
+    {
+        // bit vectors given as bits: all-zero, all-one, trailing zeros, lengths at word/block boundaries
+        let nb = match rng.gen_range(0..6) { 0 => rng.gen_range(0..8usize), 1 => 64 * rng.gen_range(1..40usize), 2 => 1024 * rng.gen_range(1..4usize) + rng.gen_range(0..2usize), _ => rng.gen_range(1..3000usize) };
+        let dens = match rng.gen_range(0..5) { 0 => 0.0, 1 => 1.0, 2 => 0.01, 3 => 0.99, _ => 0.5 };
+        let mut bits: Vec<bool> = (0..nb).map(|_| rng.gen_bool(dens)).collect();
+        if rng.gen_bool(0.5) { let t = rng.gen_range(0..=nb.min(200)); for b in bits.iter_mut().rev().take(t) { *b = false; } }
+        let lab = format!("bits (len {}, ones at {:?}...)", nb, bits.iter().enumerate().filter(|(_, b)| **b).map(|(i, _)| i).take(8).collect::<Vec<_>>());
+        let p1: Vec<usize> = (0..nb).filter(|&i| bits[i]).collect();
+        let p0: Vec<usize> = (0..nb).filter(|&i| !bits[i]).collect();
+        let d: DArray<true> = bits.iter().copied().collect();
+        let bvb: BitVector = bits.iter().copied().collect();
+        let d2 = DArray::<true>::new(bvb.clone());
+        let dn = DArray::<false>::new(bvb);
+        chk!("DArray<true>", lab.clone(), "collect from bools: (len, count_ones, count_zeros, is_empty)".to_string(), (d.len(), d.count_ones(), d.count_zeros(), d.is_empty()), (nb, p1.len(), p0.len(), nb == 0));
+        chk!("DArray<true>", lab.clone(), "new(BitVector): (len, count_ones, count_zeros), == collect".to_string(), (d2.len(), d2.count_ones(), d2.count_zeros(), d2 == d), (nb, p1.len(), p0.len(), true));
+        chk!("DArray<false>", lab.clone(), "new(BitVector): (len, count_ones, count_zeros)".to_string(), (dn.len(), dn.count_ones(), dn.count_zeros()), (nb, p1.len(), p0.len()));
+        chk!("DArray<true>", lab.clone(), "ones() / zeros()".to_string(), (d.ones().collect::<Vec<_>>() == p1, d.zeros().collect::<Vec<_>>() == p0, d.iter().collect::<Vec<_>>() == bits), (true, true, true));
+        let w = rng.gen_range(0..nb + 2);
+        chk!("DArray<true>", lab.clone(), format!("ones_with_pos({}) / zeros_with_pos({})", w, w), (d.ones_with_pos(w).collect::<Vec<_>>() == p1.iter().copied().filter(|&p| p >= w).collect::<Vec<_>>(), d.zeros_with_pos(w).collect::<Vec<_>>() == p0.iter().copied().filter(|&p| p >= w).collect::<Vec<_>>()), (true, true));
+        for _ in 0..40 {
+            let k = match rng.gen_range(0..4) { 0 => p1.len(), 1 => p1.len().saturating_sub(1), _ => rng.gen_range(0..=p1.len()) };
+            let k0 = match rng.gen_range(0..4) { 0 => p0.len(), 1 => p0.len().saturating_sub(1), _ => rng.gen_range(0..=p0.len()) };
+            chk!("DArray<true>", lab.clone(), format!("select1({})", k), (d.select1(k), d2.select1(k), dn.select1(k)), (p1.get(k).copied(), p1.get(k).copied(), p1.get(k).copied()));
+            chk!("DArray<true>", lab.clone(), format!("select0({})", k0), (d.select0(k0), d2.select0(k0)), (p0.get(k0).copied(), p0.get(k0).copied()));
+            let gi = rng.gen_range(0..nb + 2);
+            chk!("DArray<true>", lab.clone(), format!("get({})", gi), (d.get(gi), dn.get(gi)), (bits.get(gi).copied(), bits.get(gi).copied()));
+        }
     }
     chk!("DArray<true>", inp.clone(), "count_ones()".to_string(), da.count_ones(), pos.len());
     chk!("DArray<true>", inp.clone(), "len()".to_string(), da.len(), n);
